@@ -68,4 +68,61 @@ MUTANTS = [
         "description": "trio runs on a private daemon thread that nobody waits for: the run call returns while trio payloads still unwind",
         "edits": [(R + "trio_runner.py", "            await self.asyncio_loop.run_in_executor(None, self._run_trio_blocking)", "            import threading\n\n            done = self.asyncio_loop.create_future()\n\n            def _bg():\n                try:\n                    self._run_trio_blocking()\n                except BaseException as err:\n                    self.asyncio_loop.call_soon_threadsafe(lambda: done.done() or done.set_exception(err))\n\n            threading.Thread(target=_bg, daemon=True).start()\n            await done")],
     },
+    {
+        "name": "c10_trio_execute_rewraps_exceptions",
+        "properties": ["C10"],
+        "description": "execute(flavour=trio) re-wraps exceptions of the payload",
+        "edits": [(R + "trio_runner.py", "        return trio.from_thread.run(payload, trio_token=self._trio_token)", "        try:\n            return trio.from_thread.run(payload, trio_token=self._trio_token)\n        except Exception as err:\n            raise type(err)(*err.args) from err")],
+    },
+    {
+        "name": "c10_asyncio_execute_copies_result",
+        "properties": ["C10"],
+        "description": "execute(flavour=asyncio) returns a copy of the result",
+        "edits": [(R + "asyncio_runner.py", "        return future.result()", "        import copy\n\n        return copy.copy(future.result())")],
+    },
+    {
+        "name": "c10_thread_execute_through_monitor",
+        "properties": ["C10"],
+        "description": "execute(flavour=threading) goes through the failure monitor of background payloads",
+        "edits": [(R + "thread_runner.py", "        return payload()\n", "        return self._monitor_payload(payload)\n")],
+    },
+    {
+        "name": "c11_execute_private_trio_run",
+        "properties": ["C11", "C10"],
+        "description": "execute(flavour=trio) spins up a private trio.run in the caller's thread",
+        "edits": [(R + "trio_runner.py", "        return trio.from_thread.run(payload, trio_token=self._trio_token)", "        return trio.run(payload)")],
+    },
+    {
+        "name": "c11_execute_private_asyncio_loop",
+        "properties": ["C11", "C10"],
+        "description": "execute(flavour=asyncio) runs the coroutine on a private event loop in the caller's thread",
+        "edits": [(R + "asyncio_runner.py", "        future = asyncio.run_coroutine_threadsafe(payload(), self.asyncio_loop)\n        return future.result()", "        loop = asyncio.new_event_loop()\n        try:\n            return loop.run_until_complete(payload())\n        finally:\n            loop.close()")],
+    },
+    {
+        "name": "c11_thread_payload_inline_on_loop",
+        "properties": ["C11"],
+        "description": "thread payloads are run inline on the asyncio loop thread",
+        "edits": [(R + "thread_runner.py", "        thread = threading.Thread(\n            target=self._monitor_payload, args=(payload,), daemon=True\n        )\n        thread.start()", "        self.asyncio_loop.call_soon_threadsafe(self._monitor_payload, payload)")],
+    },
+    {
+        "name": "c12_guard_leaks_on_exception",
+        "properties": ["C12"],
+        "description": "the accept guard is only released when accept returns normally",
+        "edits": [(R + "guard.py", "                try:\n                    return fnc(*args, **kwargs)\n                finally:\n                    fnc_guard.release()", "                result = fnc(*args, **kwargs)\n                fnc_guard.release()\n                return result")],
+    },
+    {
+        "name": "c12_keyboard_interrupt_escapes",
+        "properties": ["C12"],
+        "description": "MetaRunner.run no longer swallows the KeyboardInterrupt of a SIGINT",
+        "edits": [(R + "meta_runner.py", "        except KeyboardInterrupt:\n            self._logger.info(\"runner interrupted\")\n", "")],
+    },
+    {
+        "name": "c12_thread_runner_close_joins_threads",
+        "properties": ["C12", "C02"],
+        "description": "closing the thread runner waits for its payload threads",
+        "edits": [
+            (R + "thread_runner.py", "        thread.start()\n", "        thread.start()\n        self._threads = getattr(self, \"_threads\", []) + [thread]\n"),
+            (R + "thread_runner.py", "        if not self._payload_failure.done():\n            self._payload_failure.set_result(None)\n", "        if not self._payload_failure.done():\n            self._payload_failure.set_result(None)\n        for thread in getattr(self, \"_threads\", []):\n            await self.asyncio_loop.run_in_executor(None, thread.join)\n"),
+        ],
+    },
 ]
